@@ -469,11 +469,18 @@ fn payment_hash(addr: &[u8]) -> Option<Vec<u8>> {
 }
 
 pub fn reward_account(addr: &[u8]) -> Option<Vec<u8>> {
-    // what the compiler documents: the stake part of a base address, or a stake address as is
+    // the account of a base address's stake credential (header 0xe_ for a key, 0xf_ for a script, low nibble =
+    // network, then the 28-byte hash), or a stake address as is
     let ty = addr.first()? >> 4;
+    let net = addr.first()? & 0x0f;
     match ty {
-        0..=3 if addr.len() == 57 => Some(addr[29..57].to_vec()),
-        14 | 15 => Some(addr.to_vec()),
+        0..=3 if addr.len() == 57 => {
+            let header = if ty >= 2 { 0xf0 } else { 0xe0 } | net;
+            let mut a = vec![header];
+            a.extend_from_slice(&addr[29..57]);
+            Some(a)
+        }
+        14 | 15 if addr.len() == 29 => Some(addr.to_vec()),
         _ => None,
     }
 }
@@ -795,7 +802,10 @@ pub fn denote(env: &Env) -> Result<ExpectedTx, EvalErr> {
             }
         }
     }
-    let accounts: Vec<Vec<u8>> = x.withdrawals.keys().cloned().collect();
+    // the ledger keeps withdrawals in a map ordered by (network, credential), and its credential type lists
+    // the script hash before the key hash: a script account (0xf_) comes before a key account (0xe_)
+    let mut accounts: Vec<Vec<u8>> = x.withdrawals.keys().cloned().collect();
+    accounts.sort_by_key(|a| (a[0] & 0x0f, a[0] >> 4 != 15, a[1..].to_vec()));
     for (a, data) in reward_redeemers {
         let ix = accounts.iter().position(|q| *q == a).unwrap() as u64;
         x.redeemers.insert((3, ix), data);
